@@ -30,6 +30,8 @@ pub enum Range {
     Crossing { over: u16, len: u32 },
     /// starts within the first 16 bytes of the view (nothing is mapped below it)
     AtStart { start: u8, len: u8 },
+    /// inside the 40-page view: up to 64 KiB + 8 at any alignment, so that 17 and more pages are touched
+    Big { start: u32, len: u32 },
 }
 
 #[derive(Debug, Clone, PartialEq, Eq, Hash, Serialize, Deserialize)]
@@ -55,6 +57,36 @@ pub fn check(c: &Case) -> Verdict {
         if !a.ensure_traced() {
             return Err("cannot ptrace the arena helper".to_string());
         }
+        if let Range::Big { start, len } = c.range {
+            // judged on its own: the big view has a fixed pattern and is entirely readable
+            let start = start as u64 % (ARENA_BIG_SIZE - 65536 - 8);
+            let len = 1 + (len as u64 % (65536 + 8));
+            let len = if len % 7 == 0 { 65536 - (len % 4096) } else { len }; // bias towards the top 4 KiB of the range
+            let addr = (ARENA_BIG + start) as usize;
+            let pid = a.pid();
+            let mut dst = vec![0xA5u8; len as usize];
+            let res: Result<Vec<u8>, String> = match c.style {
+                Style::CopyFromProcess => PtraceDumper::copy_from_process(pid, addr, len as usize).map_err(|e| format!("{e:?}")),
+                st => {
+                    let mut rd = match st {
+                        Style::VirtualMem => MemReader::for_virtual_mem(pid),
+                        Style::File => match MemReader::for_file(pid) {
+                            Ok(r) => r,
+                            Err(e) => return Err(format!("for_file: {e}")),
+                        },
+                        Style::Ptrace => MemReader::for_ptrace(pid),
+                        _ => MemReader::new(pid),
+                    };
+                    if c.to_vec {
+                        rd.read_to_vec(addr, std::num::NonZeroUsize::new(len as usize).unwrap()).map_err(|e| format!("{e:?}"))
+                    } else {
+                        rd.read(addr, &mut dst).map(|n| dst[..n].to_vec()).map_err(|e| format!("{e:?}"))
+                    }
+                }
+            };
+            let truth: Vec<u8> = (start..start + len).map(|o| pat(o, BIG_SEED)).collect();
+            return Ok((u64::MAX, len, res, truth));
+        }
         let base = if c.ro { ARENA_RO } else { ARENA };
         let (start, len) = match c.range {
             Range::Inside { start, len } => {
@@ -68,6 +100,7 @@ pub fn check(c: &Case) -> Verdict {
                 (end - len, len)
             }
             Range::AtStart { start, len } => ((start % 16) as u64, 1 + (len % 24) as u64),
+            Range::Big { .. } => unreachable!(),
             Range::Crossing { over, len } => {
                 let end = ARENA_SIZE + 1 + (over as u64 % 6000);
                 let len = (1 + (len as u64 % 65536)).min(end).max(end - ARENA_SIZE + 1);
@@ -104,6 +137,16 @@ pub fn check(c: &Case) -> Verdict {
         Ok(Err(e)) => return Verdict::Inconclusive(e),
         Err(e) => return Verdict::Inconclusive(format!("arena: {e}")),
     };
+    if start == u64::MAX {
+        // Range::Big: `view` is the expected content of an entirely readable range
+        let sig = |s: &str| format!("C17:{:?}:{s}", c.style);
+        return match res {
+            Ok(got) if got == view => Verdict::pass_c(Some(fp_json(c)), vec![format!("{:?}", c.style), if len > 61440 { "big:>=16-pages".to_string() } else { "big".to_string() }]),
+            Ok(got) if got.len() as u64 != len => Verdict::viol(sig("short-read-of-readable-range"), format!("{len} bytes inside the 40-page view, entirely readable, but {} bytes were returned", got.len())),
+            Ok(_) => Verdict::viol(sig("wrong-bytes"), format!("{len} bytes inside the 40-page view: content differs")),
+            Err(e) => Verdict::viol(sig("readable-range-fails"), format!("{len} bytes inside the 40-page view: {e}")),
+        };
+    }
     let end = start + len;
     let readable_end = end.min(ARENA_SIZE);
     let truth = &view[start as usize..readable_end as usize];
@@ -262,6 +305,7 @@ pub fn case_strategy() -> impl Strategy<Value = Case> {
             4 => (0u8..9, prop_oneof![0u32..64, any::<u32>()]).prop_map(|(back, len)| Range::EndingAt { back, len }),
             2 => (any::<u16>(), any::<u32>()).prop_map(|(over, len)| Range::Crossing { over, len }),
             2 => (any::<u8>(), any::<u8>()).prop_map(|(start, len)| Range::AtStart { start, len }),
+            2 => (any::<u32>(), any::<u32>()).prop_map(|(start, len)| Range::Big { start, len }),
         ],
         any::<bool>(),
     )
@@ -274,7 +318,7 @@ pub fn run(ctx: &mut LaneCtx) {
         SubSpec {
             name: "strategies",
             cases: (40_000, 3_000_000),
-            rule: "(strategy in {process_vm_readv, /proc/pid/mem, PTRACE_PEEKDATA, auto-probe, copy_from_process}) x view {rw followed by PROT_NONE page, read-only followed by unmapped memory} x range {anywhere inside, starting within 16 bytes of the low edge (nothing mapped below), ending 0..8 bytes before the end, crossing the end} x length 1..64 KiB at all alignments, via read() and read_to_vec(); oracle = address-derived pattern; non-trivial = length not a multiple of 8, or range within 8 bytes of / across the mapping end; distinct = hash of case",
+            rule: "(strategy in {process_vm_readv, /proc/pid/mem, PTRACE_PEEKDATA, auto-probe, copy_from_process}) x view {rw followed by PROT_NONE page, read-only followed by unmapped memory} x range {anywhere inside, starting within 16 bytes of the low edge (nothing mapped below), ending 0..8 bytes before the end, crossing the end, or anywhere in a 40-page view so that 17 and more pages are touched} x length 1..64 KiB at all alignments, via read() and read_to_vec(); oracle = address-derived pattern; non-trivial = length not a multiple of 8, or range within 8 bytes of / across the mapping end; distinct = hash of case",
             strategy: case_strategy().boxed(),
             max_shrink_iters: 2048,
             log_current: true,
